@@ -184,6 +184,19 @@ impl PoolImpl {
         // actually add certificate
         trace!("adding cert to pool: {cert:?}");
         self.slot_state(slot).add_cert(cert.clone());
+        #[cfg(feature = "verif-hooks")]
+        crate::verif::record(crate::verif::VerifEvent::CertHeld {
+            node: self.epoch_info.own_id(),
+            kind: match &cert {
+                Cert::Notar(_) => "notar",
+                Cert::NotarFallback(_) => "nf",
+                Cert::Skip(_) => "skip",
+                Cert::FastFinal(_) => "ff",
+                Cert::Final(_) => "final",
+            },
+            slot,
+            hash: cert.block_hash().cloned(),
+        });
 
         // handle resulting state updates
         match &cert {
@@ -407,6 +420,8 @@ impl PoolImpl {
     }
 
     async fn handle_finalization(&mut self, event: FinalizationEvent) {
+        #[cfg(feature = "verif-hooks")]
+        self.verif_record_finalization(&event);
         let new_parents_ready = self.parent_ready_tracker.handle_finalization(event);
         self.send_parent_ready_events(new_parents_ready).await;
         self.prune();
@@ -536,6 +551,15 @@ impl Pool for PoolImpl {
         let finalization_event = self
             .finality_tracker
             .add_parent(block_id.clone(), parent_id.clone());
+        #[cfg(feature = "verif-hooks")]
+        {
+            crate::verif::record(crate::verif::VerifEvent::Block {
+                node: self.epoch_info.own_id(),
+                block: block_id.clone(),
+                parent: parent_id.clone(),
+            });
+            self.verif_record_finalization(&finalization_event);
+        }
         let new_parents_ready = self
             .parent_ready_tracker
             .handle_finalization(finalization_event);
@@ -609,6 +633,29 @@ impl Pool for PoolImpl {
 /// Verification hooks: read-only views of internal state for the conformance harness.
 #[cfg(feature = "verif-hooks")]
 impl PoolImpl {
+    /// Appends the contents of a finalization event to the verification log.
+    fn verif_record_finalization(&self, event: &FinalizationEvent) {
+        use crate::verif::{VerifEvent, record};
+        let node = self.epoch_info.own_id();
+        if let Some(block) = &event.finalized {
+            record(VerifEvent::Finalized {
+                node,
+                block: block.clone(),
+                implicit: false,
+            });
+        }
+        for block in &event.implicitly_finalized {
+            record(VerifEvent::Finalized {
+                node,
+                block: block.clone(),
+                implicit: true,
+            });
+        }
+        for slot in &event.implicitly_skipped {
+            record(VerifEvent::ImplicitlySkipped { node, slot: *slot });
+        }
+    }
+
     /// First slot whose state has not been pruned (the watermark).
     pub fn verif_first_unpruned_slot(&self) -> Slot {
         self.first_unpruned_slot()
